@@ -433,6 +433,15 @@ def _variable_mapping(index, ctx, F):
                 work.append(f)
     has = lambda f: any((isinstance(x, ast.Attribute) and x.attr == "variable") or (isinstance(x, ast.Constant) and x.value == "variable") for x in ast.walk(f.node))
     ok = has(F) or any(has(f) for f in reach)
+    # ... every collected node gives its variable: the mapping is not filtered
+    for f in [F] + reach:
+        for c in ast.walk(f.node):
+            if isinstance(c, (ast.SetComp, ast.ListComp, ast.GeneratorExp)) and any(isinstance(x, ast.Attribute) and x.attr == "variable" for x in ast.walk(c.elt)) \
+                    and any(g.ifs for g in c.generators):
+                cond = next(i_ for g in c.generators for i_ in g.ifs)
+                ctx.violated("R4", f"{f.short}: every collected leaf accumulator gives its variable",
+                             f"`{norm_text(c)[:90]}` drops the leaves for which `{norm_text(cond)}` is false: they are not discovered, so the defaulted call leaves their .grad untouched where the "
+                             "explicit call writes it", f.loc(c))
     ctx.require(ok, "R4", "leaves are the collected nodes' .variable", "mapping present", "the collected AccumulateGrad nodes are not mapped to their .variable", callers[0].loc() if callers else F.loc())
 
 
